@@ -5,6 +5,7 @@ import (
 	"encoding/json"
 	"errors"
 	"fmt"
+	"unicode/utf8"
 
 	redact "github.com/cockroachdb/redact"
 )
@@ -163,6 +164,46 @@ func c16Routes(f string, isF bool, args []interface{}, seen func([]byte)) string
 					}
 				})))
 			}},
+		}
+		if pi == 0 && utf8.Valid(ref) {
+			// the nested route must not depend on the directive under which the SafeFormat method was reached
+			for _, outer := range []string{"%+v", "%#v", "%8v", "%-6.2v", "%+08.3v", "% x"} {
+				outer := outer
+				routes = append(routes, struct {
+					name string
+					run  func() []byte
+				}{"SafePrinter inside SafeFormat reached under " + outer, func() []byte {
+					return []byte(redact.Sprintf(outer, scriptedFn(func(p redact.SafePrinter) {
+						if isF {
+							p.Printf(f, args...)
+						} else {
+							p.Print(args...)
+						}
+					})))
+				}}, struct {
+					name string
+					run  func() []byte
+				}{"SafePrinter inside SafeFormat inside a slice printed with " + outer, func() []byte {
+					o := redact.Sprintf(outer, []interface{}{scriptedFn(func(p redact.SafePrinter) {
+						if isF {
+							p.Printf(f, args...)
+						} else {
+							p.Print(args...)
+						}
+					})})
+					b := []byte(o)
+					// strip the slice punctuation ("[" "]" or "[]interface {}{" "}")
+					if i := bytes.IndexAny(b, "[{"); i >= 0 {
+						if bytes.HasPrefix(b, []byte("[]interface {}{")) {
+							b = b[len("[]interface {}{"):]
+						} else {
+							b = b[1:]
+						}
+						b = b[:len(b)-1]
+					}
+					return b
+				}})
+			}
 		}
 		for _, r := range routes {
 			var got []byte
